@@ -2,6 +2,7 @@ package main
 
 import (
 	"bytes"
+	"encoding/hex"
 	"fmt"
 	"math/big"
 	"sort"
@@ -31,6 +32,11 @@ import (
 //	             under another id;
 //	via "walk":  Ledger.ConfirmBlock, then State.Walk to the new tip (the engine's sync path: Miner.syncBlock),
 //	via "play":  Ledger.ConfirmBlock, then State.PlayAndRepost.
+//	mh:          where the entry spends an output of a transaction the regulator marked (Ledger.UpdateBlockChainData),
+//	             the block's height is "above" / "at" / "below" the effective height of that mark (three marked
+//	             transactions on the fixture chain; world.concretiseAt names the one wanted): State.verifyMarked /
+//	             checkRelyOnMarkedTxid, the fall-back of PlayAndRepost's verifyDAGTxs for an entry that FAILED
+//	             ImmediateVerifyTx, lets a reference pass iff the block is not higher than the effective height.
 //
 // Reported are facts: whether the state machine arrived at the block, and WHICH content is in effect
 // afterwards (balances of every address and values of every key either transaction touches):
@@ -211,12 +217,19 @@ type blkFacts struct {
 	SameC  bool   // the entry is the pooled transaction: the protobufs are equal up to block id and reception time
 	Stage  string // where a refusal happened: confirm | apply | tip
 	Why    string
+	// Ordinary: what State.ImmediateVerifyTx (signatures, owners, id; no marked-transaction fall-back) says about the
+	// entry on the node before the block arrives: "passes" | "fails" (a fact for the statistics, not judged)
+	Ordinary string
 }
 
 var blkSeq int
 
 // blockOp runs one block op on a copy of the fixture chain.
-func (w *world) blockOp(entry, pooled *pb.Transaction, via string, st *stats) (out blkFacts, err error) {
+//
+// kmark "above" | "at" | "below": the entry reads the key world.kmark wrote; the copy reads the key once (a running
+// node has the version in its cache), then the regulator's call marks world.kmark on the copy with an effective height
+// in that relation to the coming block's height; "": nothing is marked here.
+func (w *world) blockOp(entry, pooled *pb.Transaction, via string, kmark string, st *stats) (out blkFacts, err error) {
 	blkSeq++
 	n, err := w.node.Clone(fmt.Sprintf("%s-blk%d", w.node.Name, blkSeq))
 	if err != nil {
@@ -228,10 +241,16 @@ func (w *world) blockOp(entry, pooled *pb.Transaction, via string, st *stats) (o
 	if err != nil {
 		return blkFacts{Res: "rej", Flags: "n", Pooled: "-", Stage: "wire", Why: err.Error()}, nil
 	}
+	if kmark != "" {
+		if err := w.markKeyWriter(n, kmark); err != nil {
+			return out, err
+		}
+	}
 	effE, effP := effectsOf(entry), effectsOf(pooled)
 	addrs, keys := unionKeys(effE, effP)
 	before := takeSnapshot(n, addrs, keys)
 	out.Pooled = "-"
+	out.Ordinary = ordinary(n, entry)
 	if pooled != nil {
 		out.Same = bytes.Equal(entry.Txid, pooled.Txid)
 		if wp, werr := wire(pooled); werr == nil {
@@ -294,6 +313,22 @@ func (w *world) blockOp(entry, pooled *pb.Transaction, via string, st *stats) (o
 	return out, nil
 }
 
+func (w *world) markKeyWriter(n *fx.Node, mh string) error {
+	vd, err := n.State.CreateXMReader().Get(markedBucket, []byte(markedKey))
+	if err != nil || vd == nil || string(vd.RefTxid) != string(w.kmark.Txid) {
+		return fmt.Errorf("the copy of the fixture node does not read the key of the transaction to be marked: %v", err)
+	}
+	eff := n.Ledger.GetMeta().TrunkHeight + map[string]int64{"above": 0, "at": 1, "below": 2}[mh]
+	if err := n.Ledger.UpdateBlockChainData(hex.EncodeToString(w.kmark.Txid), "00ff", "", "", eff); err != nil {
+		return fmt.Errorf("UpdateBlockChainData on the copy: %v", err)
+	}
+	q, err := n.Ledger.QueryTransaction(w.kmark.Txid)
+	if err != nil || q.GetModifyBlock() == nil || !q.ModifyBlock.Marked || q.ModifyBlock.EffectiveHeight != eff {
+		return fmt.Errorf("the key writer does not read back as marked on the copy: %v", err)
+	}
+	return nil
+}
+
 // verifyPanics: State.VerifyTx on a copy of tx panics (read-only on the node).
 func verifyPanics(n *fx.Node, tx *pb.Transaction) (panicked bool) {
 	defer func() {
@@ -303,6 +338,19 @@ func verifyPanics(n *fx.Node, tx *pb.Transaction) (panicked bool) {
 	}()
 	n.State.VerifyTx(proto.Clone(tx).(*pb.Transaction))
 	return false
+}
+
+// ordinary: State.ImmediateVerifyTx on a copy of tx (read-only on the node).
+func ordinary(n *fx.Node, tx *pb.Transaction) (res string) {
+	defer func() {
+		if r := recover(); r != nil {
+			res = "fails"
+		}
+	}()
+	if ok, err := n.State.ImmediateVerifyTx(proto.Clone(tx).(*pb.Transaction), false); ok && err == nil {
+		return "passes"
+	}
+	return "fails"
 }
 
 func flagsOf(before, after *snapshot, effE, effP *effects, pool bool) string {
